@@ -312,12 +312,17 @@ def gen_site(tape, nhosts=1, npages=6, with_requisites=True, with_redirects=True
             # a document shown in a frame: an embedded object that is an HTML page with links of its own. It is reachable
             # through the frame only (a page that is linked as well as framed would be at the mercy of which discovery
             # record the table keeps, C01-K3)
-            fr = site.add(p.origin, p.dir + 'frame%d.html' % len(site.order), 'page')
+            # (the name may lack an extension and the embedding element may be one that usually shows pictures: what the
+            # object IS is decided by what the server sends, and its links count like those of any framed document)
+            fr = site.add(p.origin, p.dir + ('frame%d.html' if tape.chance(2, 3, 'site.iframe.ext') else 'view%d') % len(site.order), 'page')
             for _ in range(tape.between(0, 2, 'site.iframe.nlinks')):
                 dst = pages[tape.draw(len(pages), 'site.iframe.link')]
                 if cross_host_links or dst.origin.key() == fr.origin.key():
                     fr.links.append((dst, spell(tape, fr, dst)))
-            p.inlines.append((fr, spell(tape, p, fr), 'iframe'))
+            if tape.chance(1, 2, 'site.iframe.leaf'):
+                leaf = site.add(p.origin, p.dir + 'only-via-frame%d.html' % len(site.order), 'page')       # reachable through the framed document only
+                fr.links.append((leaf, spell(tape, fr, leaf)))
+            p.inlines.append((fr, spell(tape, p, fr), tape.choice(('iframe', 'iframe', 'img'), 'site.iframe.tag')))
             if a.kind == 'bin' and tape.chance(1, 6, 'site.link_to_asset'):
                 # the same object may be linked (<a>) as well as embedded. Only leaf objects: a style sheet reached both
                 # ways would make everything below it depend on which record the table happened to keep (C01-K2/K3)
